@@ -425,9 +425,12 @@ impl Prop for C08 {
                 return;
             }
         };
+        // a correct client takes in each datagram once: at most k! orders times the duplications, a few thousand executions
+        // per case. A client that answers a datagram with new requests makes the set in flight grow without end; the cap
+        // (reported in the evidence when hit) and the per-execution bound below make the check end on such code
         explore(
             ctx,
-            &ExploreCfg::all(),
+            &ExploreCfg { bound: usize::MAX, max_execs: 50_000 },
             |prefix| {
                 let ch = Chooser::new(prefix);
                 let policy = Reorder {
@@ -451,6 +454,20 @@ impl Prop for C08 {
                 (x, dup)
             },
             |ctx, x, dup| {
+                // a correct client meets at most k (+1 duplicate) deliveries in one query; one that answers deliveries with
+                // new requests keeps the set in flight growing: reported on the execution that shows it, subtree not expanded
+                if x.choices().len() > 24 {
+                    ctx.violation(
+                        format!("arrival-orders-without-end:{}", case.family),
+                        &x.choices(),
+                        format!("{}: {} deliveries in one query (at most 7 are possible when every datagram is taken in once)", case.label, x.choices().len()),
+                        x.outcome.describe_json(),
+                        "at most as many deliveries as datagrams sent by the server, plus one duplicate",
+                        render_log(&x.log),
+                    );
+                    ctx.prune_children = true;
+                    return;
+                }
                 match &x.outcome {
                     Outcome::Ok(v) if *v == baseline => {
                         if !x.choices().iter().all(|c| *c == 0) {
